@@ -324,6 +324,14 @@ def gen_misc(kind):
         yield base + [(b"n" * n, b"v" * n)]
         yield base + [(b"n" * (n - 1) + b"A", b"v")]
         yield base + [(b"n", b"v" * (n - 1) + b" ")]
+    # every pseudo-header of a well-formed section given twice - adjacent, and as the last pseudo-header - with every
+    # pairing of (empty, the genuine value, another value): "none repeated" does not depend on what the copies say
+    for i, (nm, val) in enumerate(base):
+        for v1 in (b"", val, b"x"):
+            for v2 in (b"", val, b"x"):
+                yield base[:i] + [(nm, v1), (nm, v2)] + base[i + 1:] + [(b"a", b"1")]
+                if i + 1 < len(base):
+                    yield base[:i] + [(nm, v1)] + base[i + 1:] + [(nm, v2), (b"a", b"1")]
     if VKIND[kind] in (R.REQUEST, R.PUSH_PROMISE_KIND):
         # scheme values x empty :authority / :path
         for sch in (b"http", b"https", b"ftp", b""):
@@ -367,7 +375,8 @@ CL_SPELLINGS = (
     ("absent", [], 3),
 )
 CL_KINDS = ("request", "response", "push_response")
-CL_FRAMINGS = ("one", "two", "zero_first", "zero_mid", "zero_last", "trailers", "bytes3", "truncated", "truncated_second")
+CL_FRAMINGS = ("one", "two", "zero_first", "zero_mid", "zero_last", "trailers", "bytes3", "truncated", "truncated_second",
+               "trailers_cl", "promise_cl0")
 CL_DELIVERIES = ("whole", "frames_fin_last", "frames_lone_fin", "bytewise_lone_fin",
                  "bytewise_fin_last")
 
@@ -381,9 +390,17 @@ def cl_body_sizes(nominal):
     return sorted(s)
 
 
-def cl_frames(body, framing, announce=None):
+def cl_frames(body, framing, announce=None, kind=None):
     """-> list of frame byte strings following the HEADERS frame, or None if n/a."""
     n = len(body)
+    # another header block on the same stream carries a content-length of its own (the trailers claim the size that was
+    # really delivered; a promised request declares an empty body): it says nothing about THIS message
+    if framing == "trailers_cl":
+        return ([R.data_frame(body)] if n else []) + [R.headers_frame([(b"x-trailer", b"1"), (b"content-length", b"%d" % n)])]
+    if framing == "promise_cl0":
+        if kind != "response":
+            return None
+        return [R.push_promise_frame(0, list(REQ_BASE) + [(b"content-length", b"0")])] + ([R.data_frame(body)] if n else [])
     if framing == "one":
         return [R.data_frame(body)] if n else []
     if framing == "two":
@@ -422,7 +439,7 @@ def gen_cl_cases(kind):
         for size in cl_body_sizes(nominal):
             for framing in CL_FRAMINGS:
                 body = bytes((0x41 + i % 26) for i in range(size))
-                if cl_frames(body, framing, nominal) is None:
+                if cl_frames(body, framing, nominal, kind) is None:
                     continue
                 for delivery in CL_DELIVERIES:
                     for pos in ("last", "first"):
@@ -469,7 +486,7 @@ def run_cl(kind, case, trace=None):
     body = bytes((0x41 + i % 26) for i in range(case["size"]))
     blocked = case.get("blocked")
     nominal = [sp for sp in CL_SPELLINGS if sp[0] == case["spelling"]][0][2]
-    frames = [R.headers_frame(block)] + cl_frames(body, case["framing"], nominal)
+    frames = [R.headers_frame(block)] + cl_frames(body, case["framing"], nominal, kind)
     if blocked == "headers":
         frames[0] = R.frame(R.HEADERS, blocked_section(block))
         block = block + [DYN_ENTRY]
@@ -525,7 +542,7 @@ def run_cl(kind, case, trace=None):
     datas = [o for o in obs if o[0] == "data"]
     delivered = b"".join(o[1] for o in datas)
     ended = [o for o in obs if o[-1] is True]
-    has_trailers = case["framing"] == "trailers"
+    has_trailers = case["framing"] in ("trailers", "trailers_cl")
     problem = None
     # generic consistency
     if hdrs and hdrs[0][1] != [tuple(h) for h in block]:
